@@ -309,7 +309,7 @@ pub fn super_blitter_sym(x: i32, y: i32, width: i32, height: i32) -> MaskSuperBl
 }
 
 // ---------------------------------------------------------------- premultiplied-alpha validity of the kernels (C18 #1-#3)
-// @ob id=K.pm_sources props=C18 kind=complete tier=quick timeout=900 fns=sw_composite::alpha_mul,SolidSource::from_unpremultiplied_argb,SolidSource::from
+// @ob id=K.pm_sources props=C18,C19 kind=complete tier=quick timeout=900 fns=sw_composite::alpha_mul,SolidSource::from_unpremultiplied_argb,SolidSource::from
 // @+ desc="alpha_mul(p, a256) keeps r,g,b <= a for a256 in [1,256]; SolidSource::from_unpremultiplied_argb and From<Color> produce r,g,b <= a for every a,r,g,b"
 #[kani::proof]
 fn k_pm_sources() {
